@@ -369,6 +369,36 @@ pub fn c10_bv(g: &mut Gen) {
         }
         g.group(lines);
     }
+    // iterators over plain bitvectors obtained by CONVERSION (copy_bit_vec / From) from every other representation,
+    // including multiset sources whose item count exceeds the number of distinct positions
+    for (n, multi, vals) in [(140u64, 1u64, vec![3u64, 4, 4, 7, 11, 11, 11, 19, 64, 64, 130]), (5, 1, vec![0, 0, 4, 4, 4]), (70, 1, vec![69, 69]),
+                             (9, 0, vec![0, 3, 8]), (130, 0, vec![0, 63, 64, 65, 129]), (3, 0, vec![])] {
+        let vs: Vec<String> = vals.iter().map(|x| x.to_string()).collect();
+        let mut distinct = vals.clone(); distinct.dedup();
+        let ones = distinct.len() as u64;
+        let zeros = n - ones;
+        let mut lines = vec![format!("sp M build {} {} {}", n, multi, vs.join(" ")).trim_end().to_string()];
+        let mut targets = vec!["A", "B"];
+        lines.push("bv A copy_of M".to_string());
+        if multi == 0 { lines.push("rl R copy_of M".to_string()); lines.push("bv C copy_of R".to_string()); lines.push("bv D from R".to_string()); targets.push("C"); targets.push("D"); }
+        lines.push("bv B from M".to_string());
+        for t in targets {
+            lines.push(format!("bv {} enable rsz", t));
+            lines.push(format!("bv {} ones", t)); lines.push(format!("bv {} zeros", t));
+            for seq in call_sequences(&de_alphabet(ones), 2) { lines.push(format!("bv {} it one : {} l n b l", t, seq.join(" "))); }
+            lines.push(format!("bv {} it one : {} l n l b l", t, vec!["n"; ones as usize].join(" ")));
+            lines.push(format!("bv {} it one : {} l b l n l", t, vec!["b"; ones as usize].join(" ")));
+            lines.push(format!("bv {} it zero : {} l n l b l", t, vec!["n"; zeros as usize].join(" ")));
+            lines.push(format!("bv {} it zero : {} l b l n l", t, vec!["b"; zeros as usize].join(" ")));
+            for r in 0..=(ones + 1) { lines.push(format!("bv {} it sel {} : l n l {} l n l", t, r, vec!["n"; ones as usize].join(" "))); }
+            for r in [0, zeros / 2, zeros.saturating_sub(1), zeros, zeros + 1] { lines.push(format!("bv {} it sel0 {} : l n l {} l n l", t, r, vec!["n"; zeros as usize].join(" "))); }
+            for x in [0, n / 2, n.saturating_sub(1), n, n + 1] {
+                lines.push(format!("bv {} it pred {} : l {} l n", t, x, vec!["n"; ones as usize].join(" ")));
+                lines.push(format!("bv {} it succ {} : l {} l n", t, x, vec!["n"; ones as usize].join(" ")));
+            }
+        }
+        g.group(lines);
+    }
     // a larger vector: full traversal forwards, backwards and from both ends
     for kind in [2usize, 3, 6] {
         let bits = make_bits(g, 1000, kind);
